@@ -170,8 +170,80 @@ def rope_endswith(r, lit):
     return mk_bool(z3.And(*conj))
 
 
+def _atoms(x):
+    """characters (int / term) and whole numerals of a str rope; anything else is out of reach"""
+    out = []
+    for ch in to_rope(x).chunks:
+        if isinstance(ch, BL):
+            for it in ch.items:
+                k = it if isinstance(it, int) else const_of(it)
+                out.append(("c", k if k is not None else T(it)))
+        elif isinstance(ch, BN):
+            k = const_of(ch.val)
+            if k is not None:
+                out.extend(("c", ord(d)) for d in str(k))
+            else:
+                out.append(("n", ch.val))
+        else:
+            raise OutOfReach("replace with a symbolic pattern over chunk %r" % (ch,))
+    return out
+
+
+def _from_atoms(kind, atoms):
+    chunks, run = [], []
+    for k, v in atoms:
+        if k == "c":
+            run.append(v)
+        else:
+            if run:
+                chunks.append(BL(run))
+                run = []
+            chunks.append(BN(v))
+    if run:
+        chunks.append(BL(run))
+    return mk_rope(kind, chunks)
+
+
+def _atom_eq(x, y):
+    """are two atoms the same text -> python bool (forks when undetermined); mixed numeral / character is out of reach"""
+    if x[0] != y[0]:
+        cx = x if x[0] == "c" else y
+        if isinstance(cx[1], int) and not (48 <= cx[1] <= 57):
+            return False                    # a non-digit character is never (part of) a numeral
+        raise OutOfReach("comparing a numeral with digit characters in replace")
+    a, b = x[1], y[1]
+    if isinstance(a, int) and isinstance(b, int):
+        return a == b
+    return ctx().branch(simp(T(a) == T(b)))
+
+
+def _rope_replace_sym(r, a, b):
+    """r.replace(a, b) where the pattern a is itself symbolic: characters and whole numerals are compared atom by atom.
+    The pattern must start and end with a non-digit character (so that its ends cannot fall inside a numeral)."""
+    R, A = _atoms(r), _atoms(a)
+    Bt = _atoms(b)
+    if not A:
+        raise OutOfReach("replace of a possibly empty symbolic pattern")
+    for end in (A[0], A[-1]):
+        if end[0] != "c" or not isinstance(end[1], int) or 48 <= end[1] <= 57:
+            raise OutOfReach("replace with a symbolic pattern that starts or ends with a digit or a symbolic character")
+    out, i = [], 0
+    while i < len(R):
+        if i + len(A) <= len(R) and all(_atom_eq(R[i + k], A[k]) for k in range(len(A))):
+            out.extend(Bt)
+            i += len(A)
+        else:
+            out.append(R[i])
+            i += 1
+    return _from_atoms(to_rope(r).kind, out)
+
+
 def rope_replace(r, a, b):
     r = to_rope(r)
+    if isinstance(a, Rope) and not rope_concrete(a) or isinstance(b, Rope) and not rope_concrete(b):
+        if r.kind != "str":
+            raise OutOfReach("replace with a symbolic bytes pattern")
+        return _rope_replace_sym(r, a, b)
     acp, bcp = _cps(a), _cps(b)
     if len(acp) == 0:
         raise OutOfReach("replace of empty pattern")
